@@ -48,7 +48,12 @@ var pureExterns = map[string]bool{
 func isPureByPackage(pp string) bool {
 	// logging / tracing / metrics have no effect on the state under contract; the sync
 	// primitives are no-ops in a sequential semantics (no schedule is modelled)
-	if pp == "sync" || pp == "sync/atomic" {
+	if pp == "sync" || pp == "sync/atomic" || pp == modPath+"/pkg/logging" {
+		return true
+	}
+	// value-level library code: results are opaque, nothing reachable from the verified code is written
+	switch pp {
+	case "errors", "regexp", "regexp/syntax", "strings", "strconv", "fmt", "unicode", "unicode/utf8", "path", "math", "net/netip", "unique", "context", "runtime", "reflect":
 		return true
 	}
 	for _, p := range []string{"log/slog", "github.com/els0r/telemetry", "go.opentelemetry.io", "github.com/prometheus"} {
@@ -113,7 +118,7 @@ func (f *Frame) call(v ssa.Value, c *ssa.CallCommon, in ssa.Instruction) {
 	f.nonNil(fv[0], "call", in.Pos())
 	f.u.note("dynamic call through func value havocs memory in " + f.fn.String())
 	f.havocAll("dynamic call")
-	res = f.u.freshValue("dyn", rt())
+	res = f.freshResult("dyn", rt())
 	_ = tb
 }
 
@@ -196,6 +201,7 @@ func (f *Frame) havocAll(why string) {
 	for k, m := range f.cur.mem.m {
 		fresh := f.u.mc.NewBase("hv", m.sort, nil)
 		f.cur.mem.m[k] = f.u.mc.HavocObjs(m, limit, fresh)
+		f.cur.mem.m[k].except = f.u.privateSnapshot()
 	}
 	f.havocMaps(&f.cur.mem, limit)
 	if fs := f.frameSpecActive(); fs != nil && !f.spec {
@@ -304,7 +310,41 @@ func (f *Frame) callFunc(fn *ssa.Function, args [][]*Term, bindings [][]*Term, i
 	}
 	f.u.note("call to " + q + " has no contract and cannot be inlined: results and memory havocked")
 	f.havocAll("call " + q)
-	r := f.u.freshValue("ext", rt)
+	return f.freshResult("ext", rt)
+}
+
+func (u *Unit) privateSnapshot() map[int64]bool {
+	if len(u.privateObjs) == 0 {
+		return nil
+	}
+	if len(u.privateObjs) > 24 {
+		// keep the exclusion list short: only the most recent private variables (the older ones
+		// are then havocked too, which is sound)
+		out := map[int64]bool{}
+		lim := int64(freshBase) + u.objCtr - 64
+		for id := range u.privateObjs {
+			if id >= lim {
+				out[id] = true
+			}
+		}
+		return out
+	}
+	out := make(map[int64]bool, len(u.privateObjs))
+	for id := range u.privateObjs {
+		out[id] = true
+	}
+	return out
+}
+
+// freshResult: an unconstrained value of type rt that is a valid Go value
+func (f *Frame) freshResult(prefix string, rt types.Type) []*Term {
+	r := f.u.freshValue(prefix, rt)
+	for _, fact := range f.u.validFacts(rt, r, f.tb().BVU(32, 0xffffffff)) {
+		if !fact.hasBV {
+			f.u.addFact(fact)
+		}
+	}
+	f.u.strFacts(r)
 	return r
 }
 
@@ -321,13 +361,18 @@ func (f *Frame) resultFacts(rt types.Type, r []*Term, q string) {
 }
 
 // inlinable: loop-free (or every loop has an invariant block), no recursion on the stack.
+// packages outside /repo whose (small, loop-free or simply looping) functions are expanded from
+// their source; everything else outside /repo needs a contract, a model or is opaque
+var inlineAllow = map[string]bool{"time": true, "encoding/binary": true, "math/bits": true, "slices": true, "bytes": true, "cmp": true, "internal/byteorder": true}
+
 func (f *Frame) inlinable(fn *ssa.Function) bool {
-	for fr := f; fr != nil; fr = nil {
-		if fr.fn == fn {
-			return false
-		}
+	if f.fn == fn {
+		return false
 	}
 	if f.u.inlineStack[fn] {
+		return false
+	}
+	if pp := fnPkgPath(fn); !strings.HasPrefix(pp, modPath) && (!inlineAllow[pp] || len(fn.Blocks) > 40) {
 		return false
 	}
 	loops, err := findLoops(fn)
@@ -678,6 +723,7 @@ func (f *Frame) havocRegions(mem MemState, regs []region, all bool) MemState {
 		limit := f.tb().BVU(32, uint64(freshBase+f.u.objCtr+1))
 		for k, m := range out.m {
 			out.m[k] = f.u.mc.HavocObjs(m, limit, f.u.mc.NewBase("hv", m.sort, nil))
+			out.m[k].except = f.u.privateSnapshot()
 		}
 		f.havocMaps(&out, limit)
 		return out
@@ -952,6 +998,9 @@ func (f *Frame) callByContract(fn *ssa.Function, con *Contract, args [][]*Term, 
 	if con.Kind == "extern" {
 		u.Trusted["assumed contract: "+con.Target] = true
 	}
+	if con.Flags["assumed"] {
+		u.Trusted["assumed (not yet verified) contract of a /repo function: "+con.Target] = true
+	}
 	// results: fresh
 	var resVals [][]*Term
 	var flat []*Term
@@ -1034,15 +1083,15 @@ func (f *Frame) invoke(c *ssa.CallCommon, in ssa.Instruction, rt types.Type) []*
 	}
 	// error.Error() and friends: pure
 	if c.Method.Name() == "Error" && len(args) == 0 {
-		return f.u.freshValue("errstr", rt)
+		return f.freshResult("errstr", rt)
 	}
 	if f.spec {
-		return f.u.freshValue("inv", rt)
+		return f.freshResult("inv", rt)
 	}
 	f.u.note("interface call " + q + " has no contract: results and memory havocked")
 	f.havocAll("invoke " + q)
 	_ = tb
-	return f.u.freshValue("inv", rt)
+	return f.freshResult("inv", rt)
 }
 
 func (f *Frame) invokeByContract(con *Contract, c *ssa.CallCommon, iv []*Term, args [][]*Term, in ssa.Instruction, rt types.Type) []*Term {
